@@ -200,7 +200,12 @@ func (s *vSim) Receive(nonBlocking bool, p NetlinkParser) ([]syscall.NetlinkMess
 func (s *vSim) Close() error { s.closed++; return nil }
 
 // last returns the most recent request.
-func (s *vSim) last() *vRequest { return s.reqs[len(s.reqs)-1] }
+func (s *vSim) last() *vRequest {
+	if len(s.reqs) == 0 {
+		return nil
+	}
+	return s.reqs[len(s.reqs)-1]
+}
 
 // vCheckVerdict is the C08 oracle for one command that was the n-th request.
 func vCheckVerdict(s *vSim, rq *vRequest, err error, needsData bool, method int) {
@@ -478,6 +483,10 @@ const (
 
 // vCheckSetRequest decodes a captured AUDIT_SET request at fixed offsets.
 func vCheckSetRequest(rq *vRequest, maskBit uint32, wordIdx int, value uint32) {
+	vAssert(rq != nil, "C16/setter-sent-no-request")
+	if rq == nil {
+		return
+	}
 	vAssert(rq.typ == vUAPI_AUDIT_SET, "C16/set-request-type")
 	vAssert(rq.flags == vNLM_F_REQUEST|vNLM_F_ACK, "C16/set-request-flags")
 	vAssert(len(rq.data) == 4*vStatusWords, "C16/set-payload-size")
@@ -702,6 +711,15 @@ func VH_ClientHistory() {
 				keptRules, keptFrom = rules, s.reqs[before]
 			}
 		case 5: // Close
+			if vParam("sendfail", 0) != 0 && closes == 0 && setPID && vChoose("closesendfails", 2) == 1 {
+				// the request that clears the PID cannot be sent: the socket is closed all the same
+				s.failSendAt = s.sendCalls
+				c.Close()
+				s.failSendAt = -1
+				closes++
+				vAssert(s.closed == 1, "C17/socket-not-closed-exactly-once")
+				continue
+			}
 			err := c.Close()
 			closes++
 			vAssert(err == nil, "C17/close-returned-error")
